@@ -1,7 +1,8 @@
 /-
   Driver.C14 — stream `C14`.
 
-  payload := (DOC WRAPPER (RECV*) (STEP*))
+  payload := (DOC WRAPPER (RECV*) (STEP*) "TEXT)      -- a well-formed expression: its syntax tree and the text the library gets
+           | (text "TEXT)                             -- any text: only "parses or raises" and the parsed structure are compared
   DOC     := ((name parent ((k v)*) text)*)      -- pre-order; parent = none | index
   WRAPPER := 0 | 1                                -- element 0 is the invisible wrapper of a multi-root document
   RECV    := (doc) | (el i) | (coll i*)
@@ -10,14 +11,22 @@
            | (nspace) | (nspace PRED) | (group PRED) | (bin OP PRED PRED)
   OP      := cat add sub mul div mod | eq ne lt le gt ge | and or
 
-  Output: one result per receiver — `err` or `(id*)` — computed by the *model* (flatten → compile with
-  constant folding → step driver with the pass-based predicate evaluator), then `ok` when the
-  specification evaluator (`specEval`, recursive over the syntax tree) gives the same on every
-  receiver, `specdiff` otherwise.  Numbers: `Float`.
+  Output, first form: the TEXT is parsed by the model's tokenizer (`parseExpr`, AHP/Model/XPathParse.lean); one
+  result per receiver — `err` or `(id*)` — computed by the *model from the parsed text* (parse → compile with
+  constant folding → step driver with the pass-based predicate evaluator), then `parsediff` when the parse is not
+  the flat form of the syntax tree the harness sent, else `ok` when the specification evaluator (`specEval`,
+  recursive over the syntax tree) gives the same on every receiver, `specdiff` otherwise.  Numbers: `Float`.
+  Output, second form: `err` when tokenizing or constant folding raises, else `(parsed OP*)` with
+    OP   := (find KIND "name) | (find self) | (pred ELEM*)
+    KIND := one oneself multi multiself parent anc aos            -- the find-function chosen for the step
+    ELEM := (num BITS) | (str "s) | (bool 0|1) | (null) | (attr "n) | (text) | (last) | (pos) | (concat ELEM*)
+          | (contains ELEM ELEM) | (nspace) | (nspace ELEM) | (group ELEM*) | (op OP)
+  the canonical print of `XPathExpression(text).orderedOperations` (after constant folding).
 -/
 import AHP.Model.Basic
 import AHP.Model.XPath
 import AHP.Model.XPathSpec
+import AHP.Model.XPathParse
 namespace Driver.C14
 open AHP AHP.Sexp AHP.XPath
 
@@ -180,13 +189,78 @@ def resSx : Option (List Nat) → Sexp
   | none => sym "err"
   | some ids => .list (ids.map natAtom)
 
+/-! ### Canonical print of a parsed expression -/
+
+def opName : Op → String
+  | .arith .concat => "cat" | .arith .add => "add" | .arith .sub => "sub"
+  | .arith .mul => "mul" | .arith .div => "div" | .arith .mod => "mod"
+  | .cmp .eq => "eq" | .cmp .ne => "ne" | .cmp .lt => "lt"
+  | .cmp .le => "le" | .cmp .gt => "gt" | .cmp .ge => "ge"
+  | .bool .and => "and" | .bool .or => "or"
+
+def valSx : Val Float → Sexp
+  | .num x => .list [sym "num", sym (if x.isNaN then "nan" else toString x.toBits.toNat)]
+  | .str s => .list [sym "str", strAtom s]
+  | .bool b => .list [sym "bool", natAtom (if b then 1 else 0)]
+  | .null => .list [sym "null"]
+
+partial def beSx : BE Float → Sexp
+  | .val v => valSx v
+  | .attr n => .list [sym "attr", strAtom n]
+  | .text => .list [sym "text"]
+  | .last => .list [sym "last"]
+  | .position => .list [sym "pos"]
+  | .concatFn args => .list (sym "concat" :: args.map beSx)
+  | .containsFn a b => .list [sym "contains", beSx a, beSx b]
+  | .nspace0 => .list [sym "nspace"]
+  | .nspace1 a => .list [sym "nspace", beSx a]
+  | .group l => .list (sym "group" :: l.map beSx)
+  | .op o => .list [sym "op", sym (opName o)]
+
+/-- the find-function `parseXPathStrIntoOperations` picks (cf. `stepFn`) -/
+def findKind (first : Bool) (s : PStep Float) : String :=
+  match s.axis with
+  | some .parent => "parent"
+  | some .ancestor => "anc"
+  | some .ancestorOrSelf => "aos"
+  | some .descendant => "multi"
+  | some .descendantOrSelf => "multiself"
+  | some .child => "one"
+  | some .self => "self"
+  | none => if s.dbl then (if first then "multiself" else "multi") else (if first then "oneself" else "one")
+
+def stepsSx : Bool → List (PStep Float) → List Sexp
+  | _, [] => []
+  | first, s :: ss =>
+    let k := findKind first s
+    (if k == "self" then Sexp.list [sym "find", sym k] else .list [sym "find", sym k, strAtom s.name])
+      :: s.preds.map (fun p => Sexp.list (sym "pred" :: p.map beSx)) ++ stepsSx false ss
+
+def compilePStep (s : PStep Float) : Option (PStep Float) :=
+  (compileSteps.compilePreds floatNum s.preds).map (fun ps => { s with preds := ps })
+
+/-- second payload form -/
+def runText (t : Str) : String :=
+  match (parseExpr floatNum t).bind (fun ps => ps.mapM compilePStep) with
+  | none => "err"
+  | some ps => (Sexp.list (sym "parsed" :: stepsSx true ps)).render
+
 def run (payload : String) : String :=
   match Sexp.parse payload with
-  | some (.list [.list elems, wr, .list recvs, .list steps]) =>
-    match elems.mapM toElem, toNat? wr, recvs.mapM toRecv, steps.mapM toStep with
-    | some d, some w, some rs, some ss =>
+  | some (.list [.atom "text", t]) =>
+    match toStr? t with
+    | some t => runText t
+    | none => "bad-case"
+  | some (.list [.list elems, wr, .list recvs, .list steps, text]) =>
+    match elems.mapM toElem, toNat? wr, recvs.mapM toRecv, steps.mapM toStep, toStr? text with
+    | some d, some w, some rs, some ss, some txt =>
       let wrapper := w != 0
-      let compiled := compileSteps floatNum (flattenSteps ss)
+      let parsed := parseExpr floatNum txt
+      let expected := (flattenSteps ss).map PStep.ofStep
+      let parseOk := match parsed with
+        | some ps => (Sexp.list (stepsSx true ps)).render == (Sexp.list (stepsSx true expected)).render
+        | none => false
+      let compiled := (parsed.bind toSteps).bind (compileSteps floatNum)
       let model := rs.map (fun r => match compiled with
         | none => none
         | some cs => evaluate floatNum d cs (start d wrapper r))
@@ -194,8 +268,9 @@ def run (payload : String) : String :=
       let same := (model.zip spec).all (fun (a, b) => a == b)
       -- the hypotheses of the C14 theorems, checked on every case: pre-order table, three-level grammar, no Null literal
       let hyp := Doc.isPreOrder d && ss.all (fun s => s.preds.all (fun p => P.wf 3 p && P.noNull p))
-      (Sexp.list (model.map resSx ++ [sym (if !hyp then "hypothesis-fails" else if same then "ok" else "specdiff")])).render
-    | _, _, _, _ => "bad-case"
+      (Sexp.list (model.map resSx ++ [sym (if !hyp then "hypothesis-fails" else if !parseOk then "parsediff"
+        else if same then "ok" else "specdiff")])).render
+    | _, _, _, _, _ => "bad-case"
   | _ => "bad-case"
 
 end Driver.C14
